@@ -345,8 +345,50 @@ class Scanner:
                 pass
         return A.show(base).replace(" ", ""), [sp.expand(i) for i in idx]
 
+    def _containerlike_data(self, n):
+        """n is `obj.data()` / `ptr->data()` of a class of the program whose data() returns F.data() and whose operator[](i) returns F[i] for
+        the same member F: the pointer is the address of element 0 of what `obj[i]` / `(*ptr)[i]` subscripts -> the array name those
+        subscripts get, else None"""
+        if n.get("k") != "CXXMemberCallExpr" or PROGRAM is None or n.get("args"):
+            return None
+        cal = n.get("callee") or ""
+        if cal.split("::")[-1] != "data" or cal.startswith("std::") or cal.startswith("boost::"):
+            return None
+        cls = cal.rsplit("::", 1)[0]
+
+        def returned_member(fq, want):
+            rets = [y for y in A.walk(fq["body"]) if y.get("k") == "ReturnStmt"] if fq.get("body") else []
+            if len(rets) != 1 or not rets[0].get("c"):
+                return None
+            e = A.strip(rets[0]["c"][0])
+            if want == "data" and e.get("k") == "CXXMemberCallExpr" and (e.get("callee") or "").split("::")[-1] == "data" and A.call_object(e) is not None:
+                return A.this_field(A.strip(A.call_object(e)))
+            if want == "elem":
+                if e.get("k") == "CXXOperatorCallExpr" and e.get("op") == "[]" and len(e.get("args", [])) == 2:
+                    ix = A.declref(e["args"][1])
+                    if ix is not None and ix.get("dkind") == "ParmVar":
+                        return A.this_field(A.strip(e["args"][0]))
+                if e.get("k") == "ArraySubscriptExpr":
+                    ix = A.declref(e["c"][1])
+                    if ix is not None and ix.get("dkind") == "ParmVar":
+                        return A.this_field(A.strip(e["c"][0]))
+            return None
+        fd = [returned_member(f_, "data") for f_ in PROGRAM.fns(cal)]
+        fe = [returned_member(f_, "elem") for f_ in PROGRAM.fns(cls + "::operator[]")]
+        if not fd or not fe or None in fd or None in fe or len(set(fd) | set(fe)) != 1:
+            return None
+        fnn = A.strip(n.get("fn")) if n.get("fn") else None
+        obj = A.call_object(n)
+        if obj is None or fnn is None:
+            return None
+        text = A.show(A.strip(obj)).replace(" ", "")
+        return ("*" + text) if fnn.get("arrow") else text
+
     def _pointer_into(self, n):
         n = A.strip(n)
+        cl_ = self._containerlike_data(n)
+        if cl_ is not None:
+            return cl_, sp.Integer(0)
         if n.get("k") == "UnaryOperator" and n.get("op") == "&":
             t = A.strip(n["c"][0], casts=False)
             if t["k"] == "ArraySubscriptExpr" or (t["k"] == "CXXOperatorCallExpr" and t.get("op") == "[]"):
@@ -504,6 +546,8 @@ class Scanner:
                                x.get("callee_sig")))
         if x.get("callee") in ("std::copy_n", "std::fill_n") and len(x.get("args", [])) == 3:
             self._elements_of_bulk(x)
+        if x.get("callee") == "std::transform" and len(x.get("args", [])) in (4, 5):
+            self._elements_of_transform(x)
         self._inline(x)
 
     def _ite_chain(self, items):
@@ -592,6 +636,53 @@ class Scanner:
             return
         val = self._try(a[2])
         st = Access("store", dst[0], (sp.expand(dst[1] + jsym),), "", x, x["line"], g, l, "=", val, a[2], x)
+        st.from_bulk = x
+        self.accesses.append(st)
+
+    def _elements_of_transform(self, x):
+        """std::transform(f1, l1, [f2,] out, lambda) on named arrays, seen also as out[o+j] = body(f1[p+j] [, f2[q+j]]) for j in [0, l1-f1),
+        when the lambda's body is one return statement"""
+        a = x["args"]
+        lam = A.strip(a[-1], casts=False)
+        while lam.get("k") in ("MaterializeTemporaryExpr", "CXXBindTemporaryExpr", "ImplicitCastExpr", "CXXConstructExpr", "CXXFunctionalCastExpr", "ParenExpr",
+                               "ExprWithCleanups") and len(lam.get("args", lam.get("c", []))) == 1:
+            lam = A.strip((lam.get("args") or lam.get("c"))[0], casts=False)
+        if lam.get("k") != "LambdaExpr":
+            d = A.declref(lam)
+            lam = self.lambdas.get(d["decl"]) if d is not None and d.get("decl") in self.lambdas else None
+        if lam is None or lam.get("body") is None or lam.get("params") is None:
+            return
+        sts = [st for st in (lam["body"].get("c") or []) if st.get("k") != "NullStmt"]
+        if len(sts) != 1 or sts[0].get("k") != "ReturnStmt" or not sts[0].get("c"):
+            return
+        srcs = [self._array_of(a[0])] + ([self._array_of(a[2])] if len(a) == 5 else [])
+        last, dst = self._array_of(a[1]), self._array_of(a[-2])
+        if None in srcs or last is None or dst is None or last[0] != srcs[0][0] or len(lam["params"]) != len(srcs):
+            return
+        n = sp.expand(last[1] - srcs[0][1])
+        jsym = sp.Symbol("j_%d" % x["id"], integer=True)
+        L = Loop("j_%d" % x["id"], None, jsym, sp.Integer(0), n, "<", 1, x)
+        g, l = self._ctx()
+        l = l + [L]
+        saved = {}
+        for p_, (b_, o_) in zip(lam["params"], srcs):
+            saved[p_["decl"]] = self.tr.env.get(p_["decl"])
+            self.tr.bind(p_["decl"], sp.Indexed(sp.IndexedBase(b_), sp.expand(o_ + jsym)))
+        try:
+            val = self._try(sts[0]["c"][0])
+        finally:
+            for k_, v_ in saved.items():
+                if v_ is None:
+                    self.tr.env.pop(k_, None)
+                else:
+                    self.tr.env[k_] = v_
+        if val is None:
+            return
+        for b_, o_ in srcs:
+            ld = Access("load", b_, (sp.expand(o_ + jsym),), "", x, x["line"], g, l)
+            ld.from_bulk = x
+            self.accesses.append(ld)
+        st = Access("store", dst[0], (sp.expand(dst[1] + jsym),), "", x, x["line"], g, l, "=", val, sts[0]["c"][0], x)
         st.from_bulk = x
         self.accesses.append(st)
 
